@@ -617,10 +617,18 @@ def group_slots(S):
     zc = S.get('group.zip_condition', ('.gt', 1), zip_cond)
     def swap_present():
         fn = _func(gp, 'compute_features_3d')
-        src = ast.unparse(fn)
-        a = 'sigs = np.swapaxes(sigs, 0, 1) if axis == 1 else sigs' in src
-        b = 'dfs_features = [list(dfs) for dfs in zip(*dfs_features)] if axis == 1 else dfs_features' in src
-        return (a, b)
+        # whatever is done under a test `axis == 1` (conditional expression or if statement): the input swap and the transposition of the result
+        bodies = []
+        for n in ast.walk(fn):
+            if isinstance(n, (ast.If, ast.IfExp)) and _re.fullmatch(r'axis == 1|1 == axis', ast.unparse(n.test)):
+                bodies.append(ast.unparse(n.body) if isinstance(n, ast.IfExp) else '\n'.join(ast.unparse(x) for x in n.body))
+        if not bodies:
+            return (False, False)          # nothing is conditional on axis == 1 any more
+        a = any(_re.search(r'swapaxes\((?:sigs, )?0, 1\)|transpose\((?:sigs, )?\(?1, 0, 2\)?\)|moveaxis\(', b) for b in bodies)
+        b = any(_re.search(r'zip\(\*', b) for b in bodies)
+        if not (a and b):
+            raise ValueError('axis == 1 is handled, but not with a recognised swap / transposition idiom')
+        return (True, True)
     sw = S.get('group.axis1_transposes', (True, True), swap_present)
     def epoch_cmp(which):
         def th():
